@@ -16,3 +16,4 @@ time_t g_now;
 /* callback record (contract_cb_checker / contract_cb_builder) */
 int g_cb_called, g_cb_ret; const jwk_item_t *g_cb_key; jwt_alg_t g_cb_alg;
 jwk_item_t *g_cb_pool_key; json_t *g_cb_pool_node;
+size_t g_b64_g;
